@@ -107,7 +107,8 @@ main(int argc, char **argv)
 				nng_url *u3 = NULL;
 				int      ind = 0;
 				if (nng_url_parse(&u3, in_s) == 0) {
-					ind = same(u3, c);
+					// every component of the clone is read after the original is gone, the user info included
+					ind = same(u3, c) && seq(nng_url_userinfo(u3), nng_url_userinfo(c));
 					nng_url_free(u3);
 				}
 				printf(",\"clone\":{\"rv\":0,\"same\":%s,\"indep\":%s}", eq ? "true" : "false", ind ? "true" : "false");
